@@ -59,6 +59,7 @@ func purgeFile(dirname string, suffix string, max uint, interval time.Duration, 
 				if err != nil {
 					break
 				}
+				verifCrashPoint("pg.remove.before")
 				if err = os.Remove(f); err != nil {
 					errC <- err
 					return
@@ -68,6 +69,7 @@ func purgeFile(dirname string, suffix string, max uint, interval time.Duration, 
 					errC <- err
 					return
 				}
+				verifCrashPoint("pg.remove.after")
 				plog.Infof("purged file %s successfully", f)
 				newfnames = newfnames[1:]
 			}
